@@ -1,4 +1,5 @@
 """C09 - contract checking is transparent (DESIGN.md section 4, C09)."""
+import functools
 import os
 from fractions import Fraction as F
 
@@ -10,6 +11,7 @@ from sim.checks import common
 
 from sismic import exceptions as sx
 from sismic.interpreter import Interpreter
+from sismic.code import PythonEvaluator
 from sismic.io import import_from_yaml
 from sismic.model import Event
 
@@ -20,7 +22,7 @@ BLOCK = 20
 STREAM_ORDER = ['ops', 'guards', 'chart', 'cfg']
 RULE = ('twin interpreters on the same chart and the same seeded script, ignore_contract=False (every condition true) vs True; lock-step '
         'equality of macro steps, configurations, contexts, sent events and the meta-event stream seen by an attached listener; the '
-        'ignoring twin is run a second time with every condition false and must behave identically with zero condition evaluations. '
+        'ignoring twin is run a second time with every condition false and must behave identically with zero condition evaluations; in half of the runs both twins use an evaluator that returns lists (as the Evaluator interface documents) instead of lazy iterators. '
         'One run in four uses the shipped elevator_contract.yaml / microwave_with_contracts.yaml driven by seeded domain events and clock '
         'advances (comparison covers the steps before a legitimately failing condition). non-trivial = a twin run with >= 1 evaluated '
         'condition and >= 2 macro steps; distinct = distinct (chart, script)')
@@ -52,6 +54,20 @@ class Rec:
         self.events.append((me.name, sorted((k, repr(v)) for k, v in me.data.items())))
 
 
+class ListEvaluator(PythonEvaluator):
+    """an evaluator that answers with a list, as the Evaluator interface documents ("return a list of conditions that are
+    not satisfied"): whoever asks it has every condition evaluated at once"""
+
+    def evaluate_preconditions(self, obj, event=None):
+        return list(super().evaluate_preconditions(obj, event))
+
+    def evaluate_invariants(self, obj, event=None):
+        return list(super().evaluate_invariants(obj, event))
+
+    def evaluate_postconditions(self, obj, event=None):
+        return list(super().evaluate_postconditions(obj, event))
+
+
 def run(ch, tier):
     if ch.s('cfg').choice(4) == 3:
         return run_shipped(ch, tier)
@@ -65,8 +81,10 @@ def run_generated(ch, tier):
     cfg.time_obs = ch.s('cfg').flag(1, 2)        # invariants use after()/idle(), code logs `time`
     skew = ch.s('cfg').flag(1, 2)                # a clock that moves at every read: checking must not read it more often
     mkclock = (lambda: SkewClock()) if skew else (lambda: SimClock())
+    # in half of the runs both twins use an evaluator that returns lists instead of lazy iterators
+    klass = functools.partial(Interpreter, evaluator_klass=ListEvaluator) if ch.s('cfg').flag(1, 2) else Interpreter
     sp = gen_spec(ch.s('chart'), cfg)
-    a = Sim(sp, ignore_contract=False, clock=mkclock())
+    a = Sim(sp, ignore_contract=False, clock=mkclock(), interpreter_klass=klass)
     ra = Rec(a.it)
     recs = []
     for r in standard_ops(a, ch, tier, delays=True, hi=25 if tier == 'quick' else 60):
@@ -78,7 +96,7 @@ def run_generated(ch, tier):
         recs.append((sig(r.ms), sorted(r.post), r.ctx_after, r.exc_name(), len(ra.events)))
     script = a.script
     for variant in ('conditions-true', 'conditions-false'):
-        b = Sim(sp, ignore_contract=True, clock=mkclock())
+        b = Sim(sp, ignore_contract=True, clock=mkclock(), interpreter_klass=klass)
         rb = Rec(b.it)
         if variant == 'conditions-false':
             b.P.cond_truth = {j: False for j in range(sp.nconds)}
@@ -102,12 +120,13 @@ def run_generated(ch, tier):
                 j, ra.events[j] if j < len(ra.events) else None, rb.events[j] if j < len(rb.events) else None),
                 chart=sp.describe(), variant=variant)
         if b.P.cond_n != 0 or any(e[0] in ('cond', 'tcond') for e in b.P.log):
-            return res.fail('evaluated-while-ignoring', '%d contract conditions were evaluated with ignore_contract=True' % b.P.cond_n,
+            return res.fail('evaluated-while-ignoring', '%d contract conditions were evaluated with ignore_contract=True' % len([e for e in b.P.log if e[0] in ('cond', 'tcond')]),
                             chart=sp.describe(), variant=variant)
         if [e for e in b.P.log if e[0] not in ('cond', 'tcond')] != [e for e in a.P.log if e[0] not in ('cond', 'tcond')]:
             return res.fail('twins-differ', 'executed code differs between the twins', chart=sp.describe(), variant=variant)
     res.stats['generated_twin_runs'] += 1
     res.stats['twin_runs_with_skewing_clock'] += int(skew)
+    res.stats['twin_runs_with_a_list_returning_evaluator'] += int(klass is not Interpreter)
     res.stats['conditions_evaluated_in_checking_twin'] += a.P.cond_n
     if a.P.cond_n and len([x for x in recs if x[0] is not None]) >= 2:
         res.nontrivial.add(fp((sp.fingerprint(), [repr(o) for o in script])))
